@@ -437,6 +437,59 @@ __CPROVER_ensures(__CPROVER_return_value >= self->min_seg && __CPROVER_return_va
 __CPROVER_ensures(__CPROVER_return_value <= self->max_seg ==> RD_IN(self, __CPROVER_return_value, rd))
 __CPROVER_ensures((SEG_OK(self, g_s) && RD_IN(self, g_s, rd)) ==> __CPROVER_return_value == g_s)
 ;
+/* ---- the block of initialise_ring_diff_arrays that FILLS ring_diff_to_segment_num (statement kernel) ----
+   The table is projected onto the ghost ring difference g_rd: g_tab = its entry, [g_tab_lo, g_tab_hi] the allocated range.
+   Postcondition = the reader contract RD2SEG_READ above (which the ring-pair kernels use): the entry is a segment whose
+   interval contains g_rd, namely g_s if g_s's does, or max_segment+1 if no segment's does; plus: the table covers
+   [RDTAB_LO, RDTAB_HI], every write is inside the allocated range. */
+int g_rd, g_tab, g_tab_lo, g_tab_hi, g_tab_writes;
+int K_min_rd(const struct PDI2* self) /* *min_element(min_ring_diff.begin(), min_ring_diff.end()) */
+__CPROVER_assigns()
+__CPROVER_ensures(SEG_OK(self, g_s) ==> __CPROVER_return_value <= RDMIN(self, g_s))
+__CPROVER_ensures(SEG_OK(self, g_s2) ==> __CPROVER_return_value <= RDMIN(self, g_s2))
+__CPROVER_ensures(__CPROVER_return_value <= RDMIN(self, self->min_seg) && __CPROVER_return_value > -8192)
+;
+int K_max_rd(const struct PDI2* self) /* *max_element(max_ring_diff.begin(), max_ring_diff.end()) */
+__CPROVER_assigns()
+__CPROVER_ensures(SEG_OK(self, g_s) ==> __CPROVER_return_value >= RDMAX(self, g_s))
+__CPROVER_ensures(SEG_OK(self, g_s2) ==> __CPROVER_return_value >= RDMAX(self, g_s2))
+__CPROVER_ensures(__CPROVER_return_value >= RDMAX(self, self->max_seg) && __CPROVER_return_value < 8192)
+;
+#define RD2SEG_ALLOC(lo, hi) (g_tab_lo = (lo), g_tab_hi = (hi))
+#define RD2SEG_FILL(v) (g_tab = (v))
+#define RD2SEG_WRITE(i, v)                                                                                            \
+  do                                                                                                                  \
+    {                                                                                                                 \
+      __CPROVER_assert((i) >= g_tab_lo && (i) <= g_tab_hi, "ring_diff_to_segment_num written inside its index range"); \
+      if ((i) == g_rd)                                                                                                \
+        {                                                                                                             \
+          g_tab = (v);                                                                                                \
+          ++g_tab_writes;                                                                                             \
+        }                                                                                                             \
+    }                                                                                                                 \
+  while (0)
+/* what the loops establish without any assumption on the intervals: the entry is the FIRST (smallest) segment whose interval
+   contains g_rd, or max_segment+1 if none does. With the class invariant "intervals of different segments are disjoint"
+   (assumed, instantiated for the pair (entry, g_s)) this is the reader contract: lemma_rd2seg. */
+#define RD2SEG_SPEC(self)                                                                                             \
+  (g_tab >= self->min_seg && g_tab <= self->max_seg + 1 && (g_tab <= self->max_seg ==> RD_IN(self, g_tab, g_rd))      \
+   && ((SEG_OK(self, g_s) && RD_IN(self, g_s, g_rd)) ==> g_tab <= g_s))
+#define CONTRACT_K_rda_fill_rd2seg                                                                                   \
+  __CPROVER_requires(__CPROVER_is_fresh(self, sizeof(*self)) && PDI2_VALID(self) && g_tab_writes == 0 && g_rd > -100000 && g_rd < 100000) \
+  __CPROVER_assigns(g_tab, g_tab_lo, g_tab_hi, g_tab_writes)                                                           \
+  __CPROVER_ensures(g_tab_lo <= RDTAB_LO(self) && g_tab_hi >= RDTAB_HI(self) && g_tab_lo <= -(self->num_rings - 1) && g_tab_hi >= self->num_rings - 1) \
+  __CPROVER_ensures(g_tab_writes <= 1 && RD2SEG_SPEC(self))
+#define LC_K_rda_fill_rd2seg_0                                                                                       \
+  __CPROVER_assigns(ring_diff, g_tab, g_tab_writes)                                                                    \
+  __CPROVER_loop_invariant(ring_diff >= min_ring_difference && ring_diff <= max_ring_difference + 1)                   \
+  __CPROVER_loop_invariant(g_rd < ring_diff ? (g_tab_writes <= 1 && RD2SEG_SPEC(self)) : (g_tab == self->max_seg + 1 && g_tab_writes == 0)) \
+  __CPROVER_decreases((long)max_ring_difference + 1 - ring_diff)
+#define LC_K_rda_fill_rd2seg_1                                                                                       \
+  __CPROVER_assigns(segment_num, g_tab, g_tab_writes)                                                                  \
+  __CPROVER_loop_invariant(segment_num >= self->min_seg && segment_num <= self->max_seg + 1)                           \
+  __CPROVER_loop_invariant((SEG_OK(self, g_s) && g_s < segment_num) ==> !RD_IN(self, g_s, ring_diff))                  \
+  __CPROVER_loop_invariant(g_rd < ring_diff ? (g_tab_writes <= 1 && RD2SEG_SPEC(self)) : (g_tab == self->max_seg + 1 && g_tab_writes == 0)) \
+  __CPROVER_decreases(self->max_seg + 1 - segment_num)
 void K_init_ring_diff_arrays_if_not_done_yet(struct PDI2* self)
 __CPROVER_requires(g_error == 0)
 __CPROVER_assigns(self->ring_diff_arrays_computed, g_error)
